@@ -8,6 +8,18 @@ HERE = os.path.dirname(os.path.dirname(os.path.abspath(__file__)))
 
 # pid -> (category, technique, level text, level note, design ref)
 CHECKS = {
+    "C15": (
+        "exploration",
+        "Hypothesis: generated sets of adversarially related conversations x sequential interleavings on one shared LLMRails instance, and concurrent generate_async tasks with generated latencies/offsets on a virtual-time loop; differential oracle against isolated replay on fresh instances + parameter invariant at quiescence",
+        "Sequential leg: 2-4 conversations over a collision-prone alphabet (':' in texts, histories that re-spell another conversation's transcript with merged messages or swapped "
+        "roles, context messages) are interleaved on one instance; concurrent leg: 2-5 generate_async tasks with per-task llm_params, log and streaming options run under a "
+        "virtual clock with generated latencies. The LLM is a pure function of the prompt. Every conversation is also replayed alone on a fresh instance; replies, logs, streamed "
+        "chunks, per-turn prompts and the temperature/max_tokens seen at call start and end must be identical, and whenever no request is in flight the LLM object's parameters "
+        "must be the configured ones. Two findings are listed open (C15-F9b llm_params race, C15-F9c None left in model_kwargs); while F9b is open three quarters of the concurrent "
+        "cases come from a sub-domain without llm_params so that the search continues past it.",
+        "asyncio interleavings only (no OS threads); a supplied history that equals (roles and contents) a transcript already served by the instance is the same conversation for the instance and is not judged.",
+        "DESIGN.md 4/C15",
+    ),
     "C03": (
         "fault_enumeration",
         "Hypothesis-generated rail configurations and conversations (Colang 1.0 and 2.x) x enumeration of ALL single fault plans (action call site x invocation index; thorough: all pairs) derived from a fault-free dry run; oracle = generate returns, unchecked LLM text withheld, next turn identical to the dry run",
